@@ -169,11 +169,13 @@ class UserInfo(Endpoint):
             if extra_claims:
                 info.update(extra_claims)
 
+        _config = self.config
         if "userinfo" in _cntxt.cdb[request["client_id"]]:
-            self.config["policy"] = _cntxt.cdb[request["client_id"]]["userinfo"]["policy"]
+            _config = dict(self.config)
+            _config["policy"] = _cntxt.cdb[request["client_id"]]["userinfo"]["policy"]
 
-        if "policy" in self.config:
-            info = self._enforce_policy(request, info, token, self.config)
+        if "policy" in _config:
+            info = self._enforce_policy(request, info, token, _config)
 
         return {"response_args": info, "client_id": _session_info["client_id"]}
 
